@@ -1,7 +1,10 @@
 // Per-dialect profile (type catalogue, default literals, capabilities) and the base schemas.
 package main
 
-import "fmt"
+import (
+	"fmt"
+	"strings"
+)
 
 type profile struct {
 	dialect string
@@ -17,6 +20,7 @@ type profile struct {
 	// capabilities
 	colComment, tblComment, idxType, idxPred, idxInclude, idxPrefix, genAddChange, identity, charset bool
 	idxTypes                                                                                    []string
+	scoped                                                                                      bool // postgres with a schema scope "public"
 }
 
 func sqliteTypeID(k string) string {
@@ -61,7 +65,11 @@ func stdDefs(p *profile) func(string) (Def, Def, Def) {
 }
 
 func newProfile(dialect string) *profile {
-	p := &profile{dialect: dialect}
+	scoped := dialect == "postgres-ns"
+	if scoped {
+		dialect = "postgres"
+	}
+	p := &profile{dialect: dialect, scoped: scoped}
 	switch dialect {
 	case "sqlite":
 		p.tInt, p.tBig, p.tStr, p.tStr2, p.tText = "integer", "bigint", "varchar(255)", "varchar(10)", "text"
@@ -81,6 +89,20 @@ func newProfile(dialect string) *profile {
 		p.tBool, p.tFloat, p.tDec, p.tTime, p.tBlob, p.tJSON = "boolean", "double precision", "numeric(10,2)", "timestamp without time zone", "bytea", "jsonb"
 		p.types = []string{"integer", "bigint", "smallint", "character varying(255)", "character varying(100)", "character(10)", "text", "boolean", "double precision", "real", "numeric(10,2)", "numeric(12,4)", "timestamp without time zone", "timestamp with time zone", "date", "bytea", "jsonb", "json", "uuid", "enum:status:a,b", "enum:kind:a,b", "udt:citext", "udt:ltree", "integer[]", "text[]"}
 		p.typeID = func(k string) string { return k }
+		if scoped {
+			// with a schema scope, user-defined type names are compared without the "public." qualifier
+			p.types = append(p.types, "udt:public.citext", `udt:"public".ltree`, "udt:other.citext")
+			p.typeID = func(k string) string {
+				if strings.HasPrefix(k, "udt:") {
+					t := k[4:]
+					if strings.HasPrefix(t, `"`) {
+						return "udt:" + strings.TrimPrefix(t, `"public".`)
+					}
+					return "udt:" + strings.TrimPrefix(t, "public.")
+				}
+				return k
+			}
+		}
 		p.colComment, p.tblComment, p.idxType, p.idxPred, p.idxInclude, p.identity = true, true, true, true, true, true
 		p.idxTypes = []string{"BTREE", "HASH", "GIN"}
 	}
